@@ -186,7 +186,9 @@ func (l *List) M__bool__() (Object, error) {
 }
 
 func (l *List) M__iter__() (Object, error) {
-	return NewIterator(Tuple(l.Items)), nil
+	// iterate the list itself (by index), not a snapshot of its items, so
+	// that changes made while iterating are seen
+	return NewIterator(l), nil
 }
 
 func (l *List) M__getitem__(key Object) (Object, error) {
